@@ -24,7 +24,6 @@ import (
 	"errors"
 	"fmt"
 	"io"
-	"reflect"
 	"time"
 
 	"seata.apache.org/seata-go/pkg/tm"
@@ -42,6 +41,7 @@ import (
 	"seata.apache.org/seata-go/pkg/util/backoff"
 	seatabytes "seata.apache.org/seata-go/pkg/util/bytes"
 	"seata.apache.org/seata-go/pkg/util/log"
+	"seata.apache.org/seata-go/pkg/util/reflectx"
 )
 
 var (
@@ -292,18 +292,9 @@ func (s *selectForUpdateExecutor) buildLockKey(rows driver.Rows, meta *types.Tab
 				lockKeys.WriteString("_")
 			}
 
-			// if the value is NullInt64 or NullString etc. then call its Value()
-			ty := reflect.TypeOf(value)
-			if f, ok := ty.MethodByName("Value"); ok {
-				res := f.Func.Call([]reflect.Value{reflect.ValueOf(value)})
-				if res[1].IsNil() { // res[0]: driver.Value, [1]: error
-					lockKeys.WriteString(res[0].Elem().String())
-				}
-				continue
-			}
-
-			// if the value type is *int64, *string etc. then get the true value
-			lockKeys.WriteString(fmt.Sprintf("%v", reflect.ValueOf(value).Elem()))
+			// the same text the DML executors put into their keys: the column value as the row
+			// images carry it (a NullString / NullTime etc. unwrapped, *int64 etc. dereferenced)
+			lockKeys.WriteString(fmt.Sprintf("%v", getSqlNullValue(reflectx.GetElemDataValue(value))))
 		}
 	}
 	// Next also ends the loop when reading fails: the keys read so far do not cover the selected rows
